@@ -5,9 +5,9 @@ go 1.13
 require (
 	github.com/go-openapi/analysis v0.20.1
 	github.com/go-openapi/loads v0.21.0
-	github.com/go-openapi/spec v0.20.6
-	github.com/go-openapi/swag v0.21.1
-	github.com/stretchr/testify v1.8.0
+	github.com/go-openapi/spec v0.21.0
+	github.com/go-openapi/swag v0.23.1
+	github.com/stretchr/testify v1.10.0
 )
 
 replace github.com/go-openapi/analysis => ../
